@@ -4,7 +4,8 @@ import RepeVerif.Driver.Common
 /-!
 Driver for the `offreader` correspondence family (C16).
 
-  cap <idx> <N|-> <mw 0|1> [<outbound capacity>]  new connection: cap (`-` = unlimited), router middleware or not
+  cap <idx> <N|-|d> <mw 0|1> [<outbound capacity>]  new connection: cap (`-` = unlimited), router middleware or not
+  reconnect <idx>                                 the client drops the connection (handlers stay parked) and opens a new one
   burst <idx> begin|end                          the arrivals in between are written in one piece (no observation)
   arrive <idx> <id> <inline|blocking> <notify 0|1> <ec>
       -> <idx> admitted <id> ; running N | <idx> resp <id> <ec> ; running N | <idx> dropped ; running N
@@ -17,45 +18,69 @@ namespace Repe.Driver.Offreader
 open Repe Repe.Driver
 
 structure DSt where
-  st : St := St.init none
+  conns : List Conn := []
+  cur : Nat := 0
+  setting : CapSetting := .default
   mw : Bool := false
 
-def runningCount (s : St) : Nat :=
+def DSt.st (d : DSt) : St := (d.conns[d.cur]?.map (·.st)).getD (St.init none)
+
+def runningOf (s : St) : Nat :=
   s.running.length + (match s.readerBusy with | some (.runningInline _) => 1 | _ => 0)
+
+/-- handlers executing anywhere on the server: the current connection and the dropped ones -/
+def runningCount (d : DSt) : Nat := (d.conns.map (fun c => runningOf c.st)).foldl (· + ·) 0
 
 def showNew (s s' : St) : List String :=
   (s'.outbound.drop s.outbound.length).map fun r => s!"resp {r.id} {r.ec}"
 
+def settingOf (c : String) : Option CapSetting :=
+  if c = "d" then some .default else if c = "-" then some (.set 0) else if c.isNat then some (.set (natOf c)) else none
+
+def owns (c : Conn) (id : Nat) : Bool :=
+  (takeRun id c.st.running).isSome || (match c.st.readerBusy with | some (.runningInline a) => a.id = id | _ => false)
+
+def findOwner (conns : List Conn) (cur id : Nat) : Option Nat :=
+  if (conns[cur]?.map (owns · id)).getD false then some cur
+  else (List.range conns.length).find? (fun i => (conns[i]?.map (owns · id)).getD false)
+
 def step (d : DSt) (ws : List String) : DSt × String :=
   let f := Gen.offFacts
+  let cf := Gen.capFacts
+  let fresh (c mw : String) : Option DSt :=
+    match settingOf c with
+    | some setting =>
+      if mw = "0" || mw = "1" then
+        some { conns := sstep f cf setting [] .connect, cur := 0, setting := setting, mw := mw = "1" }
+      else none
+    | none => none
   match ws with
-  | ["cap", _idx, c, mw] =>
-    if (c = "-" || c.isNat) && (mw = "0" || mw = "1") then
-      ({ st := St.init (if c = "-" then none else some (natOf c)), mw := mw = "1" }, "")
-    else (d, "bad-op")
+  | ["cap", _idx, c, mw] => match fresh c mw with | some d' => (d', "") | none => (d, "bad-op")
   | ["cap", _idx, c, mw, ocap] =>
     -- the outbound queue's capacity is not part of the model: a full queue only delays the reader
-    if (c = "-" || c.isNat) && (mw = "0" || mw = "1") && ocap.isNat then
-      ({ st := St.init (if c = "-" then none else some (natOf c)), mw := mw = "1" }, "")
-    else (d, "bad-op")
+    if ocap.isNat then (match fresh c mw with | some d' => (d', "") | none => (d, "bad-op")) else (d, "bad-op")
   | ["burst", _idx, "begin"] => (d, "")   -- how the arrivals reach the socket; same events
   | ["burst", _idx, "end"] => (d, "")
+  | ["reconnect", _idx] =>
+    let conns := sstep f cf d.setting (sstep f cf d.setting d.conns (.disconnect d.cur)) .connect
+    ({ d with conns := conns, cur := conns.length - 1 }, "")
   | ["arrive", idx, id, route, notify, ec] =>
     if !(id.isNat && (route = "inline" || route = "blocking") && (notify = "0" || notify = "1") && ec.isNat) then
       (d, idx ++ " bad-op")
     else
       let a : Arrival := ⟨natOf id, if route = "inline" then .inline else .blocking, d.mw, notify = "1", natOf ec⟩
       let s := d.st
-      let s' := Repe.step f s (.arrive a)
+      let d' := { d with conns := sstep f cf d.setting d.conns (.ev d.cur (.arrive a)) }
+      let s' := d'.st
       let outs := showNew s s'
       let what :=
         if s'.backlog.length > s.backlog.length || (s'.readerBusy.isSome && !s.readerBusy.isSome &&
             (match s'.readerBusy with | some (.waitingSlot _) => true | _ => false)) then "stalled"
-        else if runningCount s' > runningCount s then joinSp (s!"admitted {a.id}" :: outs)
+        else if runningOf s' > runningOf s then joinSp (s!"admitted {a.id}" :: outs)
         else if !outs.isEmpty then joinSp outs
         else if s'.reports.length > s.reports.length then "dropped"
         else "none"
-      ({ d with st := s' }, s!"{idx} {what} ; running {runningCount s'}")
+      (d', s!"{idx} {what} ; running {runningCount d'}")
   | "exit" :: idx :: id :: kind =>
     let k : Option ExitKind := match kind with
       | ["ret"] => some .ret
@@ -65,13 +90,15 @@ def step (d : DSt) (ws : List String) : DSt × String :=
       | _ => none
     match k, id.isNat with
     | some k, true =>
-      let s := d.st
-      let known := (takeRun (natOf id) s.running).isSome ||
-        (match s.readerBusy with | some (.runningInline a) => a.id = natOf id | _ => false)
-      let s' := Repe.step f s (.exit (natOf id) k)
-      let outs := showNew s s'
-      let what := if !known then "unknown" else if outs.isEmpty then "none" else joinSp outs
-      ({ d with st := s' }, s!"{idx} {what} ; running {runningCount s'}")
+      match findOwner d.conns d.cur (natOf id) with
+      | none => (d, s!"{idx} unknown ; running {runningCount d}")
+      | some i =>
+        let s := (d.conns[i]?.map (·.st)).getD (St.init none)
+        let d' := { d with conns := sstep f cf d.setting d.conns (.ev i (.exit (natOf id) k)) }
+        let s' := (d'.conns[i]?.map (·.st)).getD (St.init none)
+        let outs := showNew s s'
+        let what := if outs.isEmpty then "none" else joinSp outs
+        (d', s!"{idx} {what} ; running {runningCount d'}")
     | _, _ => (d, idx ++ " bad-op")
   | _ :: idx :: _ => (d, idx ++ " bad-op")
   | _ => (d, "bad-op")
